@@ -35,7 +35,7 @@ ASSUMPTIONS = [
 ]
 
 CONFIGS = ["json", "json.batched", "msgpack", "msgpack.batched", "cbor", "cbor.batched",
-           "ubjson", "ubjson.batched"]
+           "ubjson", "ubjson.batched", "json.hex", "json.hex.batched"]
 BATCH_SIZES = (1, 2, 3, 5)
 CHUNK = {"quick": 60, "thorough": 400}
 ENV = {"fw": "none", "nvx": "1"}
@@ -118,8 +118,7 @@ def _sers():
     S.time_ns = lambda: 0
     # a differently configured serializer of the same process is used FIRST (and again before
     # every job): nothing it does may leak into the standard serializers judged below.  It is a
-    # disturber only - its own output is not judged (the hex mode cannot carry strings that start
-    # with "0x", which is outside the property).
+    # (this instance is a disturber only; the hex mode itself is judged as "json.hex" below)
     from autobahn.wamp import message as M
     hexser = S.JsonSerializer(use_binary_hex_encoding=True)
     for m_ in (M.Publish(1, "com.example.topic1", args=[b"\x00\x01\xfe\xff", {"k": b"\xff"}]),
@@ -137,6 +136,10 @@ def _sers():
     for base in ("json", "msgpack", "cbor", "ubjson"):
         out[base] = S.create_transport_serializer(base)
         out[base + ".batched"] = S.create_transport_serializer(base + ".batched")
+    # the JSON serializer's documented alternative binary encoding ("0x" + hex digits in place of
+    # "\0" + base64); the alphabets contain no text value that starts with "0x"
+    out["json.hex"] = S.JsonSerializer(use_binary_hex_encoding=True)
+    out["json.hex.batched"] = S.JsonSerializer(batched=True, use_binary_hex_encoding=True)
     if _SERS_N % 2 == 0:
         out.update({"json": S.JsonSerializer(), "json.batched": S.JsonSerializer(batched=True),
                     "msgpack": S.MsgPackSerializer(), "msgpack.batched": S.MsgPackSerializer(batched=True),
@@ -255,6 +258,11 @@ class _Run:
     def _one(self, cls, label, w, configs):
         G = self.G
         K = _klass(cls)
+        if _has_0x(w):
+            # by construction the hex mode reads every text value "0x.." as binary: such values
+            # are outside what that configuration can carry
+            configs = [c for c in configs if not c.startswith("json.hex")]
+            self.count("hex_mode_skipped_0x_text")
         if G.validate(w) != "accept" and not (label.startswith("ext:") and G.validate(w) != "reject"):
             # generator and validator of the reference agree
             raise RuntimeError("reference grammar inconsistent for %s %s: %r" % (
@@ -461,8 +469,9 @@ class _Run:
                 objs.append(_klass(cls).parse(_copy(w)))
             except Exception:
                 return      # reported by one()
+        skip_hex = any(_has_0x(w) for _, w in items)
         for cfg in CONFIGS:
-            if not cfg.endswith(".batched"):
+            if not cfg.endswith(".batched") or (skip_hex and cfg.startswith("json.hex")):
                 continue
             ser = self.sers[cfg]
             self.evals += 1
@@ -494,6 +503,16 @@ class _Run:
                                  n, names, i, type(o2).__name__, d), w, [x for _, x in items])
             # unbatched serializer must not silently accept a batch of 2+ as one message
         return True
+
+
+def _has_0x(x):
+    if isinstance(x, str):
+        return x.startswith("0x")
+    if isinstance(x, (list, tuple)):
+        return any(_has_0x(e) for e in x)
+    if isinstance(x, dict):
+        return any(_has_0x(k) or _has_0x(v) for k, v in x.items())
+    return False
 
 
 def _flatten(x, out):
@@ -589,7 +608,7 @@ def job(a):
             pool.append((cls, w))
         pool = pool[rot:] + pool[:rot]
         for cls, w in pool:
-            run.one(cls, "base", w, CONFIGS if rot == 0 else CONFIGS[rot % 8:rot % 8 + 1])
+            run.one(cls, "base", w, CONFIGS if rot == 0 else CONFIGS[rot % len(CONFIGS):rot % len(CONFIGS) + 1])
         for n in BATCH_SIZES:
             for i in range(len(pool)):
                 run.batch([pool[(i + j * (1 + rot % 3)) % len(pool)] for j in range(n)])
